@@ -143,6 +143,9 @@ impl Property for C20 {
     fn required_classes(&self, _tier: Tier) -> Vec<&'static str> {
         vec!["discard_ge_2_blocks", "discard_with_shared_reference", "step_upgrade", "step_shared_tx", "shared_tx_and_its_spender_in_one_block"]
     }
+    fn fuzz_sequences(&self) -> Vec<(&'static str, usize)> {
+        vec![("/ops", 50)]
+    }
     fn run(&self, case: &History) -> Outcome {
         let mut out = Outcome::default();
         let mut w = World::new(&case.cfg);
